@@ -153,6 +153,8 @@ def gen_history(rng, backend, big=False, multi=True):
             dead = [i for i, d in enumerate(spec.rows) if d is None]
             x = rng.random()
             first_new = (seg == 0 and st == 0 and rng.random() < 0.5)
+            if not live and not first_new and 0.16 <= x < 0.70:
+                x = rng.choice([0.0, 0.8])        # nothing to act on: create modes or try a rejected selection
             if first_new or x < 0.16:
                 room = cap - len(live)
                 if room <= 0:
@@ -162,17 +164,15 @@ def gen_history(rng, backend, big=False, multi=True):
                     n = 0
                 ev = {"e": "new", "n": n}
             elif x < 0.30:
-                if len(live) <= 1:
+                # now and then every mode is deleted
+                kmax = len(live) if rng.random() < 0.25 else len(live) - 1
+                if kmax <= 0:
                     continue
-                k = min(len(live) - 1, rng.choice([1, 1, 1, 2, 2, 3]))
+                k = min(kmax, rng.choice([1, 1, 1, 2, 2, 3]))
                 ev = {"e": "del", "ms": [_ref(rng, i) for i in rng.sample(live, k)]}
             elif x < 0.60:
                 if len(live) >= 2 and rng.random() < 0.35:
                     a, b = rng.sample(live, 2)
-                    if backend == "fock" and a > b:
-                        # pure Fock registers: two-mode gates whose second target is tensor axis 0 are a
-                        # separate (C01/C05) finding of Circuit.apply_twomode_gate; keep targets ascending
-                        a, b = b, a
                     ev = {"e": "use", "ms": [_ref(rng, a), _ref(rng, b)], "k": 0, "deps": []}
                 else:
                     i = rng.choice(live)
@@ -185,19 +185,17 @@ def gen_history(rng, backend, big=False, multi=True):
                         deps = [{"o": m} for m in rng.sample(okdeps, min(len(okdeps), rng.choice([1, 1, 2])))]
                     ev = {"e": "use", "ms": [_ref(rng, i)], "k": k, "deps": deps}
             elif x < 0.70:
-                if backend == "bosonic" and len(spec.rows) < 2:
-                    continue      # bosonic post-selection on a one-mode circuit fails in reassemble_multi (not C08)
                 k = 1 if (not fock or rng.random() < 0.6) else min(len(live), 2)
                 ev = {"e": "meas", "ms": [_ref(rng, i) for i in rng.sample(live, k)]}
             elif x < 0.93:
                 what = rng.choice(["use", "use", "del", "del", "meas", "use-dep"])
+                if what == "use-dep" and not live:
+                    what = "del"
                 if what == "use-dep":
                     # a dependency on a mode that was measured in this segment and deleted afterwards, or on a
                     # foreign RegRef
                     md = [m for m in measured if spec.rows[m] is None]
-                    # (foreign RegRefs get an index no mode of the history ever has: a MeasuredParameter of the
-                    # same name as one in use would hit the symbol-cache finding of C10)
-                    dd = [{"o": rng.choice(md)}] if md and rng.random() < 0.8 else [{"f": [50 + rng.randint(0, 9), True]}]
+                    dd = [{"o": rng.choice(md)}] if md and rng.random() < 0.8 else [{"f": [rng.choice(live + [len(spec.rows) + 3]), True]}]
                     ev = {"e": "use", "ms": [{"o": rng.choice(live)}], "k": 1, "deps": dd, "bad": "dep"}
                 else:
                     kind, refs = _bad_refs(rng, spec, rng.choice([1, 1, 2, 2, 3]) if what != "use" else rng.choice([1, 2]))
@@ -241,10 +239,11 @@ def gen_history(rng, backend, big=False, multi=True):
         if len(live) >= 2:
             probe.append({"t": "del", "ms": rng.sample(live, rng.choice([1, 2]))})
         modes = []
-        if backend != "bosonic":
+        if live:
             for _ in range(2):
                 k = rng.randint(1, len(live))
-                modes.append(rng.sample(range(len(live)), k))
+                # fock / gaussian: positions in the list of active modes; bosonic: mode indices
+                modes.append(rng.sample(live if backend == "bosonic" else range(len(live)), k))
         evs.append({"e": "end", "probe": probe, "modes": modes})
         ran_once = True
         measured = set()
@@ -253,7 +252,15 @@ def gen_history(rng, backend, big=False, multi=True):
         if seg == nseg - 1:
             break
         y = rng.random()
-        if y < 0.12:
+        if y > 0.92:
+            # eng.reset() while the user goes on with Program(prev): runs on a new simulator if the register has no
+            # holes, is refused otherwise
+            evs.append({"e": "resetkeep"})
+            if None in spec.rows:
+                evs.append({"e": "end", "probe": [], "modes": [], "mismatch": True})
+                break
+            spec = Spec(len(spec.rows))
+        elif y < 0.12:
             n = rng.choice([1, 2, 3])
             evs.append({"e": "reset", "n": n, "probe": [{"t": "gate", "ms": [m]} for m in range(4)], "modes": []})
             spec = Spec(n)
@@ -433,6 +440,15 @@ def run_real(sf, hist):
             o["smodes"] = []
             prog = sf.Program(ev["n"])
             o.update(prog_obs(prog))
+            out.append(o)
+        elif e == "resetkeep":
+            eng.reset()
+            o = dict(r="ok", **prog_obs(prog))
+            o.update(backend_obs(eng, fock))
+            try:
+                o["state"] = state_obs(eng.backend.state(), fock)
+            except Exception as ex:  # noqa: BLE001
+                o["state"] = {"err": type(ex).__name__, "msg": str(ex)[:200]}
             out.append(o)
         elif e == "fresh":
             try:
